@@ -250,6 +250,41 @@ CHECKS = {
              'stored columns first), NP-MA (masked arrays), PY-INT-STR-LEN, A-INT32-SIZE. Derived tables: bounded native stand-in only.',
         technique='AST-generated verification conditions over the real source for decoding, validity and dimension discovery, z3; derived connectivity tables by bounded native comparison with an independent oracle (not proved)',
         design_ref='Part III C10'),
+    'C08': dict(
+        category='proof',
+        text='masking.find_fill_value, mask_grid_data_array, calculate_grid_mask_bounds, mask_grid_dataset (real bodies, work files as a '
+             'recording file model), utils.to_netcdf_with_fixes, disable_default_fill_value, dataset_like; UGrid.apply_clip_mask with '
+             'update_connectivity and the boolean row selection. Grids: masks are arbitrary boolean arrays of symbolic extents (1 or the 4 '
+             'staggered SHOC masks); the window is proved to contain every selected entry, to lie inside the dimension and to be tight '
+             '(least-witness / exists theories instantiated by ghost lemma calls); at a Skolem entry of every variable: selected => '
+             'bit-identical to the input at window offset, otherwise NaN / the declared _FillValue or missing_value; integer variables '
+             'without a fill value and coordinates are cropped but never altered; the first mask whose dimensions fit is used, for spatial '
+             'dimensions in any position; attributes, encoding, variable order and global attributes kept; an empty mask is refused. '
+             'Meshes: masks given by arbitrary kept-sets (new index = rank); row k of every face / edge / node variable is the k-th kept '
+             'row, bit-identical, in the original order; variables without mesh dimensions pass through; with or without edge '
+             'dimension / edge_node table.',
+        note=TRUST + 'Assumed: XR-WHERE, XR-ISEL, XR-NETCDF-ROUNDTRIP / XR-OPEN-MFDATASET (what decoding does to fill values and dtypes is NOT '
+             'modelled), XR-MAYBE-PROMOTE, SELECTION-THEORY / SELECTION-EXTENSIONALITY, QUANT-SKOLEM, VALID-UGRID-MASK (C07), NP-MA. The real '
+             'netCDF round trip, masks saved / reloaded and applied to a second dataset, and integer fill behaviour on disk are the bounded '
+             'native stand-in (about 140 clips).',
+        technique='AST-generated verification conditions over the real source with selection / least-witness theories and a recording file model, z3; bounded native clips through real netCDF files',
+        design_ref='Part III C08'),
+    'C09': dict(
+        category='proof',
+        text='UGrid.apply_clip_mask / update_connectivity / _masked_integer_data_array on meshes whose tables encode abstract valid tables '
+             '(0/1-based, _FillValue / NaN / no fill): every connectivity table present in the input (face_node, edge_node, face_edge, '
+             'edge_face, face_face) is present in the output with the same dimension order and start_index, stored as an integer table with '
+             'a fill value; row k is row sel(k) of the input; an entry is present exactly when it was present and the element it names '
+             'survives, and is then the rank of that element among the kept ones (+ start_index), below the new count. Grids: the bounds / '
+             'coordinate variables of selected cells are bit-identical (C08 obligations) and check_dataset still recognises the result. '
+             'select_variables / get_all_geometry_names for 11 convention configurations (bounds as variables or coordinates, coordinates as '
+             'plain variables, every optional mesh table, edge / face coordinates): the inventory is exactly the variables polygons and '
+             'topology are computed from and each is kept as the very same array.',
+        note=TRUST + 'Assumed: as C08, plus the polygon contracts of C02 / C06 (polygons are a function of the geometry variables). Saving / '
+             'reopening the clipped dataset, polygon equality on real files and cross-table consistency of clipped meshes are the bounded '
+             'native stand-in.',
+        technique='AST-generated verification conditions over the real source against abstract connectivity tables and kept-set selections, z3; bounded native clips saved, reopened and compared polygon by polygon',
+        design_ref='Part III C09'),
 }
 
 NOT_YET = 'check not built yet (work in progress, see DESIGN.md)'
